@@ -132,9 +132,13 @@ std::vector<TecmpPayloadPtr> TECMP::Decoder::GetInterfacePayload(const uint8_t* 
     if (header.getMessageType() != CmpHeader::MessageType::busStatus)
         return payloads;
 
+    // The generic part has to be complete
+    std::size_t busDataOffset = 12;
+    if (size < busDataOffset)
+        return payloads;
+
     // Get base values
     InterfacePayload payload;
-    std::size_t busDataOffset = 12;
     payload.setGenericData(payloadData);
 
     while (size - busDataOffset >= 12)
